@@ -460,6 +460,22 @@ Definition do_again (cycles fuel : nat) (tk : T) (limit : option T) (tyme' : opt
     cycle_loop tk cycles fuel (set_rlive s1 true) lim stop
   end.
 
+(* The same doer objects run under a NEW Doist (fresh .doers = the given root doers, empty deque, its own
+   tyme): DoDoers keep their own doers lists and every doer its generator state; all doers are re-wound
+   to the new Doist's tyme by its enter. *)
+Definition do_fresh (cycles fuel : nat) (tk : T) (limit : option T) (tyme0 : T) (root_doers : list id) (s : st) : st :=
+  let s0 := set_done (set_rlive (set_sched (set_tyme s tyme0) 0%N {| doers := root_doers; deeds := [] |}) false)
+                     0%N (Some false) in
+  let '(s1, r) := enter_own tk fuel s0 0%N root_doers in
+  match r with
+  | GRaise _ => emit (close_own tk fuel s1 0%N) DoRaise 0%N
+  | GFuel => s1
+  | _ =>
+    let lim := option_map tabs limit in
+    let stop := tadd (tyme s1) (match lim with Some l => l | None => tzero end) in
+    cycle_loop tk cycles fuel (set_rlive s1 true) lim stop
+  end.
+
 (* ---------- Doist.ado ----------
    In doing.py `ado` is a second, separately written copy of the body of `do`
    (enter, limit Tymer, the cycle loop with its two stop tests, exit in the
